@@ -8,6 +8,12 @@ fn dec_case(ty: &str, b: &[u8], src: &str, nt: bool) -> Case {
     let pts = valid_points(b);
     mk(format!("C10 dec {} {} {} {}", ty, sizes(), hexlist(&pts), hexd(b)), &[&format!("ep:deserialize-{}", ty), src], nt)
 }
+/// decode probes made while generating run under the same guard as the cases (a mutated decoder must not take the generator down);
+/// should the allocation limit fire, the verdict line names the decoder case this probe belongs to
+fn probe<T: Decodable>(ty: &str, b: &[u8]) -> Option<T> {
+    set_emergency(&dec_case(ty, b, "src:generator-probe", true).text);
+    match guard(|| deserialize::<T>(b)).0 { Some(Ok(v)) => Some(v), _ => None }
+}
 fn strhex(s: &str) -> String { hexd(s.as_bytes()) }
 fn varint(n: u64) -> Vec<u8> {
     match n { 0..=0xfc => vec![n as u8], 0xfd..=0xffff => { let mut v = vec![0xfd]; v.extend((n as u16).to_le_bytes()); v }
@@ -55,7 +61,7 @@ fn pset_vectors() -> Vec<Vec<u8>> {
     for f in ["src/pset/mod.rs", "src/pset/elip100.rs", "src/pset/elip102.rs", "src/pset/map/output.rs", "src/pset/map/input.rs", "src/pset/str.rs", "src/blind.rs"] {
         if let Ok(s) = std::fs::read_to_string(format!("{}/{}", repo, f)) {
             for lit in s.split('"') {
-                if lit.len() > 40 && lit.starts_with("cHNldP") { if let Ok(p) = Pset::from_str(lit) { v.push(serialize(&p)); } }
+                if lit.len() > 40 && lit.starts_with("cHNldP") { if let Some(Ok(p)) = guard(|| Pset::from_str(lit)).0 { v.push(serialize(&p)); } }
             }
         }
     }
@@ -113,7 +119,7 @@ pub fn gen(rng: &mut ChaCha20Rng, n: usize, thorough: bool) -> Vec<Case> {
     let mut valid: Vec<(String, Vec<u8>)> = Vec::new();
     for v in &repo {
         for ty in ["tx", "block", "header"] {
-            let ok = match ty { "tx" => deserialize::<Transaction>(v).is_ok(), "block" => deserialize::<Block>(v).is_ok(), _ => deserialize::<BlockHeader>(v).is_ok() };
+            let ok = match ty { "tx" => probe::<Transaction>(ty, v).is_some(), "block" => probe::<Block>(ty, v).is_some(), _ => probe::<BlockHeader>(ty, v).is_some() };
             if ok && v.len() < 30000 { out.push(dec_case(ty, v, "src:repo-vector", false)); if v.len() < 6000 { valid.push((ty.to_string(), v.clone())); } }
         }
     }
@@ -278,7 +284,7 @@ pub fn gen(rng: &mut ChaCha20Rng, n: usize, thorough: bool) -> Vec<Case> {
 
     // ------------------------------------------------------------------ pegin witnesses, pegout scripts, minimum_value
     let mut pegins: Vec<Vec<Vec<u8>>> = Vec::new();
-    for v in &repo { if let Ok(tx) = deserialize::<Transaction>(v) { for i in &tx.input { if i.is_pegin && !i.witness.pegin_witness.is_empty() { pegins.push(i.witness.pegin_witness.clone()); } } } }
+    for v in &repo { if let Some(tx) = probe::<Transaction>("tx", v) { for i in &tx.input { if i.is_pegin && !i.witness.pegin_witness.is_empty() { pegins.push(i.witness.pegin_witness.clone()); } } } }
     pegins.push(vec![5u64.to_le_bytes().to_vec(), vec![7; 32], vec![9; 32], vec![0x51], vec![1, 2, 3], vec![0; 80]]);
     for p in pegins.clone() { if p.iter().map(|x| x.len()).sum::<usize>() < 4000 { out.push(mk(format!("C10 pegin {}", peglist(&p)), &["ep:PeginData::from_pegin_witness", "src:valid"], true)); } }
     for _ in 0..n {
@@ -382,7 +388,7 @@ pub fn gen(rng: &mut ChaCha20Rng, n: usize, thorough: bool) -> Vec<Case> {
     }
     for _ in 0..n / 2 {
         let (_, b) = &valid[rng.gen_range(0..valid.len())];
-        if deserialize::<Transaction>(b).is_err() { continue; }
+        if probe::<Transaction>("tx", b).is_none() { continue; }
         if rng.gen_range(0..3) == 0 { out.push(mk(format!("C10 x-verify {}", hexd(b)), &["ep:explore-verify_tx_amt_proofs", "src:generated"], true)); }
         out.push(mk(format!("C10 x-sighash {} {} {} {} {}", hexd(b), pk!(rng, [0usize, 1, 2, 5, 300]), pk!(rng, [0usize, 1, 2, 3, 6]), pk!(rng, [0u8, 1, 2, 3, 0x81, 0x82, 0x83]), rng.gen::<u8>()), &["ep:explore-taproot-sighash", "src:generated"], true));
     }
